@@ -2,6 +2,7 @@ package main
 
 import (
 	"fmt"
+	"go/token"
 	"strings"
 
 	"golang.org/x/tools/go/ssa"
@@ -19,8 +20,9 @@ func init() {
 			"(R6) SaveConfig writes, for every registered option, its user-set value exactly when one is set (no other condition decides membership in the saved map), keyed by the option key, and hands that map to the encoder whose output is written to the config file. " +
 			"(R7) lock pairing over the functions of package(s) config: " + lockRuleText + ". " +
 			"(R8) error discipline over package config: " + repoErrText + ". " +
+			"(R9) validateValue consults the allowed-values list for every value it accepts: scalar values before any value cache is built, and every entry of a string list that is matched against the regex is also checked against the allowed values before the next entry. " +
 			"NOT decided: JSON encode->decode equality of values, semantics of validation functions/regexes, real setter/getter interleavings (R2-R4 are the protocol's necessary order/lock facts).",
-		Rules: []ruleFn{c04R1, c04R2, c04R3, c04R4, c04R5, c04R6,
+		Rules: []ruleFn{c04R1, c04R2, c04R3, c04R4, c04R5, c04R6, c04R9,
 			lockRuleFor("C04-R7", 20, []string{"config"}, []string{}, map[string]string{}),
 			repoErrRuleFor("C04-R8", 25, func(c *Ctx, fn *ssa.Function) bool { return short(fn.Pkg.Pkg.Path()) == "config" }, map[string]string{"config.AddToDebugInfo / config.ForEachOption": "the callback never returns an error", "config.GetActiveConfigValues / config.ForEachOption": "the callback never returns an error"})},
 	})
@@ -671,4 +673,88 @@ func c04R6(c *Ctx, r *Report) {
 	}
 	r.Check(ok, rule, "config.SaveConfig / saved map is encoded and written to the config file",
 		"MapToJSON(saved map) is what os.WriteFile(configFilePath, ...) writes", "the bytes written to the config file are not the encoding of the collected user-set values")
+}
+
+// c04R9: allowed values are enforced for every accepted value.
+func c04R9(c *Ctx, r *Report) {
+	const rule = "C04-R9"
+	r.SetFloor(rule, 4)
+	fn := c.Func("config.validateValue")
+	if fn == nil {
+		r.Undecided(rule, "config.validateValue", "anchor function missing")
+		return
+	}
+	isAllowedCall := isCallInstrTo("config.isAllowedPossibleValue")
+	arrT, okT := c.constVal("config", "OptTypeStringArray")
+	if !okT {
+		r.Undecided(rule, "config.OptTypeStringArray", "constant missing")
+		return
+	}
+	arrayOptGuard := func(op token.Token, truthy bool) Guard {
+		return Guard{Name: "option.OptType == OptTypeStringArray", Truthy: truthy, Match: func(b ssa.Value) bool {
+			bo, ok := b.(*ssa.BinOp)
+			if !ok || bo.Op != op {
+				return false
+			}
+			v, isC := constInt(bo.Y)
+			return isC && v == arrT && fieldLoadOf(bo.X, "config.Option", "OptType")
+		}}
+	}
+	isArrayOpt := []Guard{arrayOptGuard(token.EQL, true), arrayOptGuard(token.NEQ, false)}
+	// scalar value caches
+	eachInstr(fn, func(in ssa.Instruction) {
+		al, ok := in.(*ssa.Alloc)
+		if !ok || ownerType(al.Type()) != "config.valueCache" {
+			return
+		}
+		field := ""
+		for _, ref := range *al.Referrers() {
+			if fa, ok := ref.(*ssa.FieldAddr); ok {
+				field = fieldName(al.Type(), fa.Field)
+			}
+		}
+		if field == "" || field == "stringArrayVal" {
+			return
+		}
+		p := ReachFromAvoiding(fn, nil, func(x ssa.Instruction) bool { return x == in }, isArrayOpt, isAllowedCall)
+		r.Check(p == nil, rule, fmt.Sprintf("config.validateValue / %s accepted only after the allowed-values check", field),
+			"every path to this value cache passes isAllowedPossibleValue (options of list type are checked per entry)",
+			"a scalar value can be accepted without the allowed-values check", append([]string{c.Pos(in.Pos())}, c.pathString(p)...)...)
+	})
+	// list entries: regex match and allowed-values check come in pairs
+	n := 0
+	eachInstr(fn, func(in ssa.Instruction) {
+		call, ok := in.(*ssa.Call)
+		if !ok || calleeName(&call.Call) != "regexp.Regexp.MatchString" {
+			return
+		}
+		// only the match inside the entry loop (its argument is an element of the list)
+		inLoop := false
+		for _, l := range c.Leaves(call.Call.Args[1]) {
+			if u, ok := l.(*ssa.UnOp); ok {
+				if _, isIdx := u.X.(*ssa.IndexAddr); isIdx {
+					inLoop = true
+				}
+			}
+		}
+		if !inLoop {
+			return
+		}
+		n++
+		nextIter := func(x ssa.Instruction) bool { return x.Block().Comment == "rangeindex.loop" }
+		rejected := func(x ssa.Instruction) bool {
+			if isAllowedCall(x) {
+				return true
+			}
+			_, isRet := x.(*ssa.Return)
+			return isRet
+		}
+		bad := ReachInstr(fn, call, nextIter, rejected)
+		r.Check(bad == nil, rule, "config.validateValue / every list entry is checked against the allowed values",
+			"between the regex match of an entry and the next entry the allowed-values check runs (or the value is rejected)",
+			"a list entry that matches the regex is accepted without the allowed-values check: with an explicit validation regex the possible values are not enforced for lists", c.Pos(call.Pos()))
+	})
+	if n == 0 {
+		r.Undecided(rule, "config.validateValue / list entries", "no per-entry regex match found")
+	}
 }
